@@ -138,11 +138,11 @@ m = {
  },
  "engines": [
    {"name": "vcheck", "path": "/verif/harness", "serves_properties": [c["property_id"] for c in checks],
-    "kind_free_text": "Go harness: seed-determined case lists sharded over worker processes; monitors (differential against an independent reference model, metamorphic, totality budgets, event-log checkers) observe the real library; Go race detector build for the concurrent properties"},
+    "kind_free_text": "Go harness: seed-determined case lists sharded over worker processes; monitors (differential against an independent reference model, metamorphic, totality budgets, event-log checkers) observe the real library; Go race detector build for the concurrent properties; the C10 and C11 binaries are built with the pre-installed go1.26.8 (tags verif,vt) so that part of their cases run in virtual time (testing/synctest), with a fallback to the default toolchain"},
  ],
  "checks": checks,
  "not_applicable": na,
- "notes": "All checks rebuild the harness against /repo's working tree (VERIF_REPO overrides). Exit 0 held / 1 violation / 3 check broken. KNOWN_FINDINGS.txt lists recorded defects (known:) and repaired ones (fixed:). VERIF_SEED selects the case list.",
+ "notes": "All checks rebuild the harness against /repo's working tree (VERIF_REPO overrides). Exit 0 held / 1 violation / 3 check broken. KNOWN_FINDINGS.txt lists recorded defects (known:) and repaired ones (fixed:). VERIF_SEED selects the case list. Before a check runs, the built binary scans the tree under test for its integer constants and byte literals (value dictionary; known/dict-baseline.txt is the pinned tree's) - generators draw from it.",
 }
 json.dump(m, open(os.path.join(V, "MANIFEST.json"), "w"), indent=1)
 print("checks:", len(checks), "not_applicable:", len(na))
